@@ -219,10 +219,11 @@ def prop(spec, rec):
     rec.case(spec, labels, nonid >= 2 and (binding or spec["scheduler"]["kind"] in ("scripted", "uncontrolled")))
 
 
-def early_estimate(draw, a, d, used):
+def early_estimate(draw, a, d, used, soon=False):
     """An estimate between arrival + 1 and the real departure (the driver stays longer than
-    announced), distinct from every other session's estimate."""
-    e = a + draw(st.integers(1, max(1, d - a)))
+    announced), distinct from every other session's estimate; with `soon` right after arrival, so
+    that the session spends most of its stay past the estimate."""
+    e = a + (1 if soon else draw(st.integers(1, max(1, d - a))))
     while e in used:
         e += 1
     used.add(e)
@@ -239,7 +240,10 @@ def cases(draw):
     # arrivals pairwise distinct, departures pairwise distinct, estimated departures pairwise
     # distinct (no sort key ties), sessions on one station do not overlap, sessions on different
     # stations overlap heavily (contention)
-    crowd = draw(st.integers(0, 3)) == 0 or (kind in ("greedy", "rr") and draw(st.booleans()))  # every station busy almost at once
+    # "squeeze": a full car park behind one feeder that cannot serve everybody (not even everybody's
+    # minimum pilot) - whom the sorted algorithms serve must follow from the sort key alone
+    squeeze = kind in ("greedy", "rr") and draw(st.integers(0, 2)) == 0
+    crowd = squeeze or draw(st.integers(0, 3)) == 0 or (kind in ("greedy", "rr") and draw(st.booleans()))  # every station busy almost at once
     counts = [draw(st.sampled_from([1, 2] if crowd else [0, 1, 1, 1, 2])) for _ in range(n)]
     if sum(counts) < 2:
         counts[0] = counts[-1] = 1
@@ -258,7 +262,7 @@ def cases(draw):
             a = t + (draw(st.integers(0, 3)) if j else 0)
             while a in used_a:
                 a += 1
-            d = a + draw(st.integers(1, 8) if late else st.integers(3, 12))
+            d = a + draw(st.integers(1, 8) if late else st.integers(6 if squeeze else 3, 12))
             while d in used_d:
                 d += 1
             used_a.add(a), used_d.add(d)
@@ -269,7 +273,7 @@ def cases(draw):
                     "arrival": a,
                     "departure": d,
                     "energy": round(draw(st.sampled_from([0.3, 1.0, 4.0, 15.0] if late else [4.0, 15.0, 30.0])) * (1 + 0.0137 * idx), 6),
-                    "est_departure": ests[idx] if late else early_estimate(draw, a, d, used_e),
+                    "est_departure": ests[idx] if late else early_estimate(draw, a, d, used_e, soon=squeeze),
                     "battery": draw(sc.battery_specs(noise=False)),
                 }
             )
@@ -277,6 +281,8 @@ def cases(draw):
             t = d
     demand = sum(sc.top_level(s) for s in stations)
     cons = draw(sc.constraint_lists(stations, 3, limits=(8.0, 12.0, 20.0, 30.0) + tuple(round(demand * f, 3) for f in (0.2, 0.4, 1.0, 2.0))))
+    if squeeze:
+        cons = cons + [{"name": "feeder", "limit": draw(st.sampled_from([8.0, 12.0, 20.0, 33.0])), "coeffs": {i: 1.0 for i in ids}}]
     if kind == "scripted":
         sch = draw(sc.scripted_schedulers(stations))
         sch["probe"] = draw(st.integers(0, 3)) > 0
@@ -294,6 +300,10 @@ def cases(draw):
         sch = draw(sc.sorted_schedulers(estimator=False, kinds=(kind,), mr=(1, 1, 1, 2, 3)))
         if not late and draw(st.booleans()):
             sch["sort"] = "edf"  # the order that reads the (outlived) estimates
+        if squeeze:
+            sch["uninterrupted"] = draw(st.booleans())
+            if not late:
+                sch["sort"] = draw(st.sampled_from(["edf", "edf", "llf"]))
         if draw(st.integers(0, 2)) == 0:
             # a rampdown estimator rides along: it pairs every session with the pilot and the
             # rate of the previous period, whatever order stations and sessions are listed in
